@@ -2,7 +2,7 @@
    The statements marked TOP are the ones the Props files close with [exact]; their wording is
    fixed.  Everything else may be reorganised freely. *)
 From Coq Require Import ZArith List Bool Lia ZifyBool.
-Require Import PyBase GenTape TapeFacts Tape K7 PyFacts.
+Require Import PyBase GenTape TapeFacts Tape K7 PyFacts TapeLemmas1 TapeLemmas2 TapeLemmasW TapeLemmasC TapeLemmasR.
 Import ListNotations.
 Open Scope Z_scope.
 Ltac Zify.zify_post_hook ::= Z.to_euclidean_division_equations.
@@ -30,7 +30,20 @@ Theorem tape_third_party_read : forall (raw : list Z) (files : list k7_file) (v 
   tar_extract v into arch raw =
     mkOutcome 0 (map (k7_line v) (k7_positions 0 files))
               (mkdir_of into ++ map (k7_write (target_of into arch)) files) None.
-Admitted.
+Proof.
+  intros raw files v into arch HK Hok Hnul.
+  assert (Hx : tar_extract v into arch raw =
+               mkOutcome 0 (map (k7_line v) (k7_positions 0 files))
+                 (mkdir_of into ++ map (k7_write (target_of into arch)) files) None).
+  { exact (tar_extract_K7 v into arch raw files HK Hok Hnul). }
+  split; [|exact Hx].
+  pose proof (tar_list_extract_agree raw v into arch) as Hag.
+  pose proof (tar_list_effects v raw) as Hfx.
+  rewrite Hx in Hag. cbn [o_lines o_status o_crash] in Hag.
+  destruct Hag as [(Hl & Hs & Hc)|[Hc _]]; [|discriminate].
+  destruct (tar_list v raw) as [st ls fx cr]. cbn [o_lines o_status o_crash o_effects] in *.
+  now subst.
+Qed.
 
 (* on EVERY byte string the two actions print the same report and end the same way; the only
    exception is an extraction stopped by a file name with an embedded NUL (open() refuses it:
@@ -41,7 +54,7 @@ Theorem tape_list_extract_agree : forall (raw : list Z) (v : bool) (into : optio
    o_crash (tar_list v raw) = o_crash (tar_extract v into arch raw)) \/
   (o_crash (tar_extract v into arch raw) = Some EValue /\
    exists more, o_lines (tar_list v raw) = o_lines (tar_extract v into arch raw) ++ more).
-Admitted.
+Proof. exact tar_list_extract_agree. Qed.
 
 (* ---------------- TOP: C03 / C09 / C01 ---------------- *)
 Definition entries (fs : fsmap) (srcs : list (list Z)) : list k7_file := map (src_entry fs) srcs.
@@ -56,7 +69,16 @@ Theorem tape_create_conforms : forall (fs : fsmap) (srcs : list (list Z)) (arch 
   zlen raw = 21504 /\
   k7_decode raw = Some (entries fs srcs) /\
   K7 raw (entries fs srcs).
-Admitted.
+Proof.
+  intros fs srcs arch v Hr Hs raw. unfold entries in *.
+  destruct (tar_create_fits v fs arch srcs Hr Hs) as (ls & H). rewrite H. cbn [o_status o_effects].
+  pose proof (entries_ok fs srcs Hr) as Hok.
+  pose proof (k7_encoded_size_nonneg (map (src_entry fs) srcs)) as Hnn.
+  split; [reflexivity|]. split; [reflexivity|]. split; [|split].
+  - unfold raw. rewrite zlen_app, zlen_images, zlen_repeat by exact Hr. lia.
+  - apply k7_decode_images. exact Hok.
+  - apply K7_images. exact Hok.
+Qed.
 
 Theorem tape_create_refuses : forall (fs : fsmap) (srcs : list (list Z)) (arch : list Z) (v : bool),
   forallb (src_readable fs) srcs = true ->
@@ -64,14 +86,23 @@ Theorem tape_create_refuses : forall (fs : fsmap) (srcs : list (list Z)) (arch :
   o_status (tar_create v fs arch srcs) <> 0 /\
   o_effects (tar_create v fs arch srcs) = [] /\
   (exists ls, o_lines (tar_create v fs arch srcs) = ls ++ [inj_overflow_message]).
-Admitted.
+Proof.
+  intros fs srcs arch v Hr Hs. destruct (tar_create_overflows v fs arch srcs Hr Hs) as (ls & H).
+  rewrite H. cbn [o_status o_effects o_lines]. split; [lia|]. split; [reflexivity|]. now exists ls.
+Qed.
 
 (* whatever the sources (missing, unreadable, too big): all or nothing *)
 Theorem tape_create_all_or_nothing : forall (fs : fsmap) (srcs : list (list Z)) (arch : list Z) (v : bool),
   (o_status (tar_create v fs arch srcs) = 0 /\
    exists raw, o_effects (tar_create v fs arch srcs) = [WriteFile arch raw] /\ zlen raw = 21504) \/
   (o_status (tar_create v fs arch srcs) <> 0 /\ o_effects (tar_create v fs arch srcs) = []).
-Admitted.
+Proof.
+  intros fs srcs arch v. unfold tar_create.
+  destruct (inject_loop v fs blank_tape lst0 srcs []) as [ls [t|e]] eqn:E.
+  - left. cbn [o_status o_effects]. split; [reflexivity|]. exists (t_raw t). split; [reflexivity|].
+    rewrite (inject_loop_twf _ _ _ _ _ _ _ _ blank_tape_twf E). apply blank_tape_len.
+  - right. destruct e; cbn [o_status o_effects]; (split; [|reflexivity]); unfold inj_overflow_status; lia.
+Qed.
 
 (* C01: the round trip, for 8.3 names *)
 Theorem tape_roundtrip : forall (fs : fsmap) (srcs : list (list Z)) (arch : list Z) (v : bool),
@@ -86,21 +117,64 @@ Theorem tape_roundtrip : forall (fs : fsmap) (srcs : list (list Z)) (arch : list
     o_status (tar_extract v None arch raw) = 0 /\
     o_effects (tar_extract v None arch raw) =
       map (fun s => WriteFile (path_join (dirname arch) (src_catname s)) (src_content fs s)) srcs.
-Admitted.
+Proof.
+  intros fs srcs arch v Hr H83 Hdir Hs.
+  destruct (tape_create_conforms fs srcs arch v Hr Hs) as (Hst & Hfx & _ & _ & HK).
+  set (raw := concat (map k7_file_image (entries fs srcs)) ++
+              repeat 0 (Z.to_nat (21504 - k7_encoded_size (entries fs srcs)))) in *.
+  exists raw. split; [exact Hst|]. split; [exact Hfx|].
+  pose proof (entries_ok fs srcs Hr) as Hok. fold (entries fs srcs) in Hok.
+  apply negb_true_iff in Hdir.
+  assert (Hnul : forallb (no_nul_path (target_of None arch)) (entries fs srcs) = true).
+  { unfold entries. clear -Hr H83 Hdir. induction srcs as [|s srcs IH]; [reflexivity|].
+    cbn [forallb map] in *. apply andb_prop in Hr. apply andb_prop in H83.
+    destruct Hr as [Hr1 Hr2], H83 as [H1 H2]. rewrite IH by assumption.
+    destruct (entry_roundtrip fs s Hr1 H1) as (_ & Hsafe & _ & Hn0).
+    unfold no_nul_path, target_of. change (k7_leader (src_entry fs s)) with (kleader (src_entry fs s)).
+    rewrite Hsafe, path_join_no_nul by assumption. reflexivity. }
+  destruct (tape_third_party_read raw (entries fs srcs) false None arch HK Hok Hnul) as [Hlist _].
+  destruct (tape_third_party_read raw (entries fs srcs) v None arch HK Hok Hnul) as [_ Hext].
+  rewrite Hlist, Hext. cbn [o_status o_lines o_effects mkdir_of app target_of].
+  split; [reflexivity|]. split; [|split; [reflexivity|]].
+  - unfold entries. generalize 0. clear -Hr H83. induction srcs as [|s srcs IH]; intros idx; [reflexivity|].
+    cbn [forallb map k7_positions] in *. apply andb_prop in Hr. apply andb_prop in H83.
+    destruct Hr as [Hr1 Hr2], H83 as [H1 H2]. rewrite IH by assumption. f_equal.
+    destruct (entry_roundtrip fs s Hr1 H1) as (Hlab & _ & _ & _).
+    unfold k7_line, render_entry. cbn [fst snd]. exact Hlab.
+  - unfold entries. clear -Hr H83. induction srcs as [|s srcs IH]; [reflexivity|].
+    cbn [forallb map] in *. apply andb_prop in Hr. apply andb_prop in H83.
+    destruct Hr as [Hr1 Hr2], H83 as [H1 H2]. rewrite IH by assumption. f_equal.
+    destruct (entry_roundtrip fs s Hr1 H1) as (_ & Hsafe & Hcont & _).
+    unfold k7_write. change (k7_leader (src_entry fs s)) with (kleader (src_entry fs s)).
+    now rewrite Hsafe, Hcont.
+Qed.
 
 (* ---------------- TOP: C18 (tape) ---------------- *)
 Theorem tape_cursor_advances : forall (t : tape) (b : list Z) (t' : tape),
   0 <= t_pos t -> next_block t = (Some b, t') -> t_pos t + 7 <= t_pos t'.
-Admitted.
+Proof. intros t b t' Hp H. now destruct (next_block_some _ _ _ Hp H) as (_ & _ & H7 & _). Qed.
 
 (* the loops never run out of the fuel len(raw)+1: list and extract terminate on every input *)
 Theorem tape_loops_terminate : forall (raw : list Z) (v : bool) (into : option (list Z)) (arch : list Z),
   o_status (tar_list v raw) <> -1 /\ o_status (tar_extract v into arch raw) <> -1.
-Admitted.
+Proof. intros raw v into arch. split; [apply tar_list_terminates|apply tar_extract_terminates]. Qed.
 
 (* every file extract writes lies directly inside the destination *)
 Theorem tape_extract_confined : forall (raw : list Z) (v : bool) (into : option (list Z)) (arch : list Z) (e : effect),
   In e (o_effects (tar_extract v into arch raw)) ->
   e = MkDir (target_of into arch) /\ into <> None \/
   exists l c, e = WriteFile (path_join (target_of into arch) l) c /\ existsb (Z.eqb 47) l = false /\ existsb (Z.eqb 0) l = false.
-Admitted.
+Proof.
+  intros raw v into arch e. unfold tar_extract.
+  change (match into with Some d => d | None => dirname arch end) with (target_of into arch).
+  destruct (extract_loop (fuel_of raw) v (target_of into arch) (tape_of_bytes raw) lst0 None None []
+              (rev match into with Some d => [MkDir d] | None => [] end)) as [[[ls fxs] err]|] eqn:E.
+  - assert (Hin : In e fxs -> In e (rev match into with Some d => [MkDir d] | None => [] end) \/
+                               confined_fx (target_of into arch) e)
+      by (apply (extract_effects _ _ _ _ _ _ _ _ _ _ _ _ E)).
+    intros H. assert (H' : In e fxs) by (destruct err; exact H). clear H.
+    destruct (Hin H') as [Hpre|Hc]; [|right; exact Hc].
+    rewrite <- in_rev in Hpre. destruct into as [d|]; [|destruct Hpre].
+    destruct Hpre as [Hpre|[]]. left. subst e. split; [reflexivity|discriminate].
+  - cbn [finish o_effects]. intros [].
+Qed.
